@@ -15,6 +15,7 @@ shapes at run time.  Decided structurally:
       before the next alternative / the return, and the variables it yields are fed to `Substitution::reset` in a loop."""
 from . import flow
 from .facts import op_place, op_const
+from .common import enum_switches_any
 
 TC = "gluon_check::typecheck::Typecheck"
 DEEP = ("gluon_base::types::walk_type", "gluon_base::types::walk_type_")
@@ -275,3 +276,39 @@ def r2j(fb, rep):
         else:
             rep.violation(R, "record-shortcut-unordered", "the record case drops the expected type after comparing field names without regard to their order: "
                           "a literal with the expected fields in another order is accepted although its run-time layout differs from the annotated type", t.where())
+
+
+def r2k(fb, rep):
+    """R2k — the occurs check follows a unified variable to its representative (C02; also what keeps let-generalisation sound).
+
+    `substitution::occurs` walks the type being bound to variable v: it reports v's own occurrence and lowers the
+    generalisation level of every unbound variable it meets to v's.  A variable met on the way is resolved with
+    `find_type_for_var`; the answer may be a proper type *or the root variable of a union of unbound variables*.  The walker must
+    apply itself to that answer (so that a root variable is compared with v and has its level lowered), not only descend into its
+    children: a bare variable has no children, the step is silently skipped, an inner `let` is generalised over a variable that is
+    still shared with an enclosing lambda parameter, and `f (Box "hello") "world"` is accepted at type Int."""
+    R = "R2k"
+    rep.rule(R, "the occurs/level walker re-applies itself to the type a variable resolves to")
+    ws = [b for b in fb.bodies.values() if b.crate.name == "gluon_check" and "substitution::occurs::Occurs" in b.id and b.id.endswith("::walk")]
+    if len(ws) != 1:
+        rep.anchor_lost(R, "<substitution::occurs::Occurs as Walker>::walk")
+        return
+    b = ws[0]
+    finds = [c for c in b.calls() if c.res.endswith("Substitution::<T>::find_type_for_var")]
+    if not finds:
+        rep.anchor_lost(R, "find_type_for_var in the occurs walker")
+        return
+    rec = [c for c in b.calls() if c.res == b.id or (c.fn or "").endswith("types::Walker::walk")]
+    ok = False
+    for bb, place, m, other in enum_switches_any(b):
+        if not place[1] and place[0] == finds[0].dest[0] and 1 in m:
+            some_region = b.reachable(m[1], avoid_blocks=[bb]) - b.reachable([t for v, t in m.items() if v != 1] + ([other] if other is not None else []), avoid_blocks=[bb])
+            walked = [c for c in rec if c.bb in some_region]
+            # the recursive application receives the resolved type
+            if any(flow.has_call(flow.sources(b, c.args[1], depth=10), lambda n: n.endswith("find_type_for_var")) for c in walked if len(c.args) > 1):
+                ok = True
+    if ok:
+        rep.ok(R, "occurs walker: Some(real_type) -> self.walk(real_type)")
+    else:
+        rep.violation(R, "resolved-variable-not-rewalked", "the occurs walker only descends into the children of the type a variable resolves to: when that type is itself a (root) "
+                      "variable neither the occurs test nor the level adjustment is applied to it", finds[0].where())
